@@ -398,6 +398,13 @@ def simulate(case, draw):
             if any(s in changed_slots.get(tid, ()) for s in rec["in"]):
                 info["f5_effective"] += 1
             if isinstance(ref, Exception) or isinstance(res, Exception):
+                if (isinstance(res, yastn.YastnError) and not isinstance(ref, Exception) and "fused legs" in str(res)
+                        and cfg.get("default_fusion") != refcfg.get("default_fusion")
+                        and len({r2["args"].get("mode") for r2 in progs[tid].values() if r2["op"] == "fuse"}) > 1):
+                    # the program itself mixes explicitly moded fusions with default-mode ones: under another default the operands end up meta- vs
+                    # hard-fused, which the library rejects by design (not a dependence of a result on the knob)
+                    info["mode_mixing_rejected"] = info.get("mode_mixing_rejected", 0) + 1
+                    continue
                 if type(ref) is not type(res):
                     raise core.Violation(PROP, "diff-exception", "task %d (%s) op %d %s: reference %s, disturbed %s" % (
                         tid, cfg, uid, rec["op"], _short(ref), _short(res)), op=rec["op"], uid=uid)
